@@ -84,7 +84,7 @@ CHECKS["C10"] = (
 
 CHECKS["C09"] = (
     "order / continuity / range monitor over sorted grids evaluated by the real spline functions (uniform grid + every knot and its "
-    "ulp, 1e-9, 1e-6 neighbours + end-points + tail junction), both directions, float64 and float32",
+    "ulp, 1e-9, 1e-6 neighbours + end-points + tail junction), both directions, float64 and float32; the same grids as column-major tensors; output boxes with non-representable ends",
     "For 4 families x bounded boxes (square, shifted, non-square, up to 1e3) / linear tails (B 0.5..1e3) x bins 1-10 x parameter "
     "policies (exactly zero, randn 0.3/1/3, +-15 alternating) every grid row is checked for: non-decreasing, strictly growing where "
     "its own slope demands it, no jump across ulp/1e-9/1e-6 steps, end-points mapped to end-points, range kept, identity with zero "
@@ -123,7 +123,7 @@ CHECKS["C14"] = (
 CHECKS["C12"] = (
     "metamorphic monitor over pairs of executions: whole batch vs rows alone (batch size 1) vs a permuted batch vs the same row among "
     "extreme in-domain companions vs duplicated rows, for forward / inverse / log_prob / transform_to_noise of transforms, flows and "
-    "distributions in eval mode, every variant on a fresh never-called deep copy of the model",
+    "distributions in eval mode, every variant on a fresh never-called deep copy of the model; the same batch in other memory layouts (feature-major, channels-last, strided rows)",
     "Row-wise agreement to 1e-9 (float64) between the variants for the whole transform zoo (2-D and image inputs, with/without "
     "context, never-initialised ActNorm included), generic / packaged flows and all distribution classes; companions straddle the tail "
     "bounds and domain end-points so that inside/outside masks differ between the variants.",
@@ -133,7 +133,7 @@ CHECKS["C13"] = (
     "TorchDispatchMode write-watch on every public call (schema is_write flags x storage identity of caller tensors, parameters, "
     "buffers) + bitwise before/after snapshots (incl. the storage surrounding views) + history-independence monitor (every call of a "
     "random call sequence vs the same call on a fresh never-called copy, bit for bit) + the repository's own test-suite run under a "
-    "class-level contract plugin (argument bit patterns and eval-mode state before/after each of ~670 wrapped calls); reuse/update phase: caller refills its argument tensors in place under no_grad, values change through train()..eval(), results compared bitwise with a never-called copy",
+    "class-level contract plugin (argument bit patterns and eval-mode state before/after each of ~670 wrapped calls); reuse/update phase: caller refills its argument tensors in place under no_grad, values change through train()..eval(), results compared bitwise with a never-called copy; training-mode flags of sub-modules and autograd status of buffers compared around every call; partly frozen flows",
     "For transforms, flows and distributions in eval and training mode, inputs/context presented plain, as slices of a larger tensor, "
     "non-contiguous and as requires_grad leaves: no ATen op may write into caller or (eval) model storage, snapshots must be bit-identical, "
     "training-mode writes must be on the documented statistics only, and results must not depend on earlier calls (mixed operations, mixed "
@@ -155,7 +155,7 @@ CHECKS["C16"] = (
     "finite-difference monitor in float64: directional derivatives from back-propagation vs Richardson-extrapolated central "
     "differences (h, h/2 with kink detection and resampling) - jointly over all parameters, per parameter tensor, for inputs and "
     "context; back-propagation executed twice (also after an inverse call filled a weight cache first); finiteness at inputs with exact zeros; "
-    "float32-twin monitor (gradients of the .float() copy vs the float64 ones, norm-wise); library distributions as subjects too",
+    "float32-twin monitor (gradients of the .float() copy vs the float64 ones, norm-wise); library distributions as subjects too; sampling-path direction (sample_and_log_prob under a fixed seed as a function of context and parameters); UMNN inverse differentiability probe (open finding F-UMNN-INVERSE-GRAD)",
     "Relative agreement 1e-5 (observed <= 4e-9) for the whole transform zoo with smooth conditioners and small flows, both directions, "
     "training and evaluation mode; a parameter whose finite difference is non-zero must receive a finite gradient; backward must "
     "succeed repeatedly.",
